@@ -86,6 +86,15 @@ func opsClassify(p opsPoint, s, g opsOutcome) []opsFinding {
 func runOps(prop, tier, replay string) {
 	run := ev.Start(prop, tier, "model_checking")
 	if replay != "" {
+		var bp biPoint
+		if loadReplay(replay, &bp) == nil && bp.Pt.Fn != "" {
+			biCheck(run, []biPoint{bp}, prop)
+			run.Set("states", 1)
+			run.Set("transitions", 1)
+			run.Set("traces_validated_against_impl", 1)
+			run.Sample(bp.text())
+			run.Finish()
+		}
 		var sp srPoint
 		if loadReplay(replay, &sp) == nil && sp.Res != "" && sp.Pt.Kind != "" {
 			srCheck(run, []srPoint{sp}, prop)
@@ -152,6 +161,10 @@ func runOps(prop, tier, replay string) {
 		srRun(run, prop)
 		run.Finish()
 	}
+	if os.Getenv("VERIF_ONLY") == "builtins" { // development aid: only the predeclared-function engine
+		biRun(run, prop)
+		run.Finish()
+	}
 	if os.Getenv("VERIF_ONLY") == "lits" { // development aid: only the literal engine
 		litRun(run, tier, prop)
 		run.Finish()
@@ -192,6 +205,10 @@ func runOps(prop, tier, replay string) {
 	if prop != "C04" { // composite literals, index and slice expressions, indirection (Lits.tla)
 		st5, tr5, n5 := litRun(run, tier, prop)
 		states, transitions, points = states+st5, transitions+tr5, points+n5
+	}
+	{ // predeclared functions (Builtins.tla)
+		st7, tr7, n7 := biRun(run, prop)
+		states, transitions, points = states+st7, transitions+tr7, points+n7
 	}
 	if prop == "C01" || prop == "C02" { // typing rules of statement heads (StmtRules.tla)
 		st6, tr6, n6 := srRun(run, prop)
